@@ -178,6 +178,21 @@ def stepOp (d : DState) (l : Line) : DState × List Verdict :=
     let vF := fs.foldl (fun acc e => acc ++ checkFault name kind diff e) []
     -- 3. every kill point
     let vC := crs.foldl (fun acc e => acc ++ checkCopy name kind e) []
+    -- 3b. the indexer killed right after each of its batches (`j:markerHeight:markerOK:moved:integ:resync:eq`)
+    let kls := (getStrList l.obs "kl").getD []
+    let vK := kls.foldl (fun acc e =>
+      match splitColon e with
+      | [j, h, mok, moved, kinteg, res, keq] =>
+        let a1 : List Verdict := if kinteg == "ok" then [] else [.monitor "c09/integrity_check" s!"op={name},killed_after_batch={j},result={kinteg}"]
+        -- the persisted marker must name the block whose effects the database holds
+        let a2 : List Verdict :=
+          if mok == "1" then []
+          else if mok == "0" then [.monitor "c09/chain_batch_atomic" s!"killed_after_batch={j},marker_height={h},state_is_not_the_markers,differs={moved}"]
+          else [.mismatch "marker_reference" "built" mok]
+        let a3 : List Verdict := if keq == "1" then [] else
+          [.monitor "c09/resume_converges" s!"killed_after_batch={j},marker_height={h},resync={res}"]
+        acc ++ a1 ++ a2 ++ a3
+      | _ => acc ++ [.badline s!"kill entry {e}"]) []
     -- 4. the retry and the state it leaves
     let vR : List Verdict :=
       if retry == "skip" then []
@@ -207,7 +222,7 @@ def stepOp (d : DState) (l : Line) : DState × List Verdict :=
                       opsSeen := if d.opsSeen.contains name then d.opsSeen else name :: d.opsSeen }
     let d := if twin == "ok" && name == "W.Register" then { d with hooksLive := d.hooksLive + 1 }
              else if twin == "ok" && name == "W.Remove" then { d with hooksLive := d.hooksLive - 1 } else d
-    let vs := vShape ++ vF ++ vC ++ vR ++ vCache ++ vI ++ vStale
+    let vs := vShape ++ vF ++ vC ++ vK ++ vR ++ vCache ++ vI ++ vStale
     (d, vs)
   | _, _, _, _, _, _, _, _, _, _ =>
     match getStr l.obs "bad" with
@@ -289,10 +304,39 @@ def stepResume (d : DState) (l : Line) : DState × List Verdict :=
     (d, vs)
   | _, _, _, _ => (d, [.badline "resume fields"])
 
+/-- overlapping budgets on one account, the commit of one of them failing -/
+def stepBudgets (d : DState) (l : Line) : DState × List Verdict :=
+  match getStr l.obs "twin", getStr l.obs "open", getStr l.obs "res", getNat l.obs "fired", getNat l.obs "same",
+        getNat l.obs "agree_open", getNat l.obs "agree_closed", getNat l.obs "eq", getStr l.obs "integ" with
+  | some twin, some opn, some res, some fired, some same, some ao, some ac, some eq, some integ =>
+    if twin != "ok" || opn != "ok" || res == "skip" then (d, [])     -- the account could not cover the budgets
+    else
+      let mode := (getStr l.args "mode").getD "?"
+      let k := (getStr l.args "k").getD "?"
+      let whereS := (getStr l.obs "at").getD "?"
+      let failed := fired == 1 && !(res.startsWith "ok")
+      let v1 : List Verdict := if integ == "ok" then [] else [.monitor "c09/integrity_check" s!"budgets,result={integ}"]
+      let v2 : List Verdict := if failed && same == 0 then
+        [.monitor "c09/failed_op_no_effect/A.BudgetCommit" s!"k={k},at={whereS},others_open"] else []
+      let v3 : List Verdict := if failed && ao == 0 then
+        [.monitor "c09/cache_agrees_after_failure/A.BudgetCommit" s!"k={k},at={whereS},mode={mode},other_budgets_open"] else []
+      let v4 : List Verdict := if ac == 0 then
+        [.monitor "c09/cache_agrees_after_success/A.BudgetCommit" s!"mode={mode},all_budgets_closed"] else []
+      let v5 : List Verdict := if eq == 0 || (res.splitOn "+").length > 1 then
+        [.monitor "c09/retry_converges/A.BudgetCommit" s!"mode={mode},res={res},k={k}"] else []
+      let cache := (getStr l.obs "cache").getD "-"
+      let v6 : List Verdict := if cache == "-" then [] else [.monitor "c09/cache_agrees_after_success/A.BudgetCommit" s!"disagree={cache}"]
+      ({ d with ops := d.ops + 1, faults := d.faults + fired }, v1 ++ v2 ++ v3 ++ v4 ++ v5 ++ v6)
+  | _, _, _, _, _, _, _, _, _ =>
+    match getStr l.obs "bad" with
+    | some why => (d, [.badline why])
+    | none => (d, [.badline "budgets fields"])
+
 def stepRaw (d : DState) (l : Line) : DState × List Verdict :=
   if l.op == "op" then stepOp d l
   else if l.op == "restart" || l.op == "irestart" then stepRestart d l
   else if l.op == "resume" then stepResume d l
+  else if l.op == "budgets" then stepBudgets d l
   else if l.op == "vop" then
     match getStr l.obs "twin", getStr l.obs "res" with
     | some t, some r =>
